@@ -9,7 +9,7 @@ from vlib.strategies import chunk_policy
 
 ID = "C05"
 LEVEL = "exploration"
-RULE = ("1..2 block requests on one manager (the second unrelated, or re-sending headers of the first with another merkle proof / coinbase); each: Hypothesis-generated lists of RSK headers (17..20 RLP fields over short/long/single-byte "
+RULE = ("1..3 block requests on one manager (the second unrelated, or re-sending headers of the first with another merkle proof / coinbase; up to two other commands - signing, queries, a refused advance - served in between); each: Hypothesis-generated lists of RSK headers (17..20 RLP fields over short/long/single-byte "
         "forms, compressed coinbase from a drawn midstate split) with 0..10 (thorough ..20) "
         "brothers each x device plans (chunk policy, which blocks it asks brothers for, early "
         "total success, final partial/total); non-trivial = >= 2 blocks and (a brother list of "
@@ -20,7 +20,7 @@ ASSUMPTIONS = [
     "coinbase transaction and pycryptodome Keccak-256 (none of them the code under test's)",
 ]
 REQUIRED_LABELS = {t: ["advance", "ancestor", "asked-brothers>=2", "multi-chunk-header",
-                       "stop-early", "stop-early-partial", "history", "same-hash-other-coinbase", "final:partial", "final:total", "fields:17", "fields:18",
+                       "stop-early", "stop-early-partial", "history", "interlude", "same-hash-other-coinbase", "final:partial", "final:total", "fields:17", "fields:18",
                        "fields:19", "fields:20", "code:0", "code:1", "mm-len:55", "mm-len:56", "mm-len:255", "asked-brothers:10",
                        "mm-len:256"]
                    for t in ("quick", "thorough")}
@@ -104,6 +104,11 @@ def cases(draw, tier):
         nxt["ask"] = [draw(st.booleans()) for _ in blocks]
         nxt["stop"] = None
         seq.append(nxt)
+    if len(seq) >= 2 and draw(st.booleans()):
+        seq.append(draw(one_request(tier)))
+    for c in seq[1:]:
+        # other commands served by the same manager between two block requests
+        c["interlude"] = draw(st.lists(st.sampled_from(mw.INTERLUDES), max_size=2))
     return {"seq": seq}
 
 
@@ -195,6 +200,9 @@ def run_case(h):
         labels.append("same-hash-other-coinbase")
     nt = False
     for c in seq:
+        if c.get("interlude") and c is not seq[0]:
+            labels.extend(mw.interlude(p, w, c["interlude"], False))
+            labels.append("interlude")
         out = run_one(c, w, p)
         labels.extend(out.labels)
         nt = nt or out.nontrivial
